@@ -377,7 +377,7 @@ M('c12-forget', [(OWN, '''        let value = self.into();
         Ok(Owned(Box::new(move || Some(value.clone()))))''', '''        let value: T = self.into();
         core::mem::forget(value.clone());
         Ok(Owned(Box::new(move || Some(value.clone()))))''')], {'C12': r'R12\.4', 'C13': r'R13\.4'})
-M('c12-partial-on-inner-none', [('src/output/deep/result.rs', '            Self::Err(val) => Some(Err(val.output()?)),', '            Self::Err(val) => match val.output() { Some(v) => Some(Err(v)), None => return None.or(None) },')], silent=['C12'])
+M('c12-partial-on-inner-none', [('src/output/deep/result.rs', '            Self::Err(val) => Some(Err(val.output()?)),', '            Self::Err(val) => match val.output() { Some(v) => Some(Err(v)), None => None },')], silent=['C12'])
 
 # ---- C13 -------------------------------------------------------------------------------------
 VC = 'src/value_chain.rs'
